@@ -212,6 +212,18 @@ struct Ev {
     is_log: bool,
     norm: Option<Norm>,
     fields: Vec<(String, Fv)>,
+    /// the `message` field as a visitor that implements nothing but `record_debug` sees it
+    /// (the way a message written with tracing's own macros is read)
+    message_via_record_debug: Option<String>,
+}
+/// visitor with the one mandatory method only
+struct DebugOnly(Option<String>);
+impl Visit for DebugOnly {
+    fn record_debug(&mut self, f: &Field, v: &dyn std::fmt::Debug) {
+        if f.name() == "message" {
+            self.0 = Some(format!("{:?}", v));
+        }
+    }
 }
 impl Ev {
     fn js(&self) -> Value {
@@ -333,6 +345,11 @@ impl Collect for Shared {
             is_log: e.is_log(),
             norm,
             fields: v.0,
+            message_via_record_debug: {
+                let mut d = DebugOnly(None);
+                e.record(&mut d);
+                d.0
+            },
         };
         self.0.events.lock().unwrap().push(ev);
     }
@@ -500,6 +517,12 @@ fn judge_events(out: &mut Out, c: &Case<'_>, got: &[Ev], stray: usize, asked: &[
             None => problem = Some("event has no `message` field".into()),
             Some(m) if m != text => problem = Some(format!("event message {:?} != record text {:?}", m, text)),
             _ => {}
+        }
+        if problem.is_none() && ev.message_via_record_debug.as_deref() != Some(text.as_str()) {
+            problem = Some(format!(
+                "the event's message read through Visit::record_debug alone is {:?}, the record's text is {:?}",
+                ev.message_via_record_debug, text
+            ));
         }
         if problem.is_none() {
             match &ev.norm {
